@@ -720,6 +720,32 @@ func runFatCase(prop string, c core.Case, env *core.Env) core.Result {
 		if drv.Diverged {
 			return false
 		}
+		// a refusal for lack of space must be justified by the FAT itself: "space released ... can be used
+		// again" - read raw, the table must not hold enough free clusters for what was refused
+		if prop == "C01" && len(drv.History) > 0 && (op.Kind == "write" || op.Kind == "append" || op.Kind == "create" || op.Kind == "mkdir") &&
+			strings.Contains(drv.History[len(drv.History)-1].Err, "no space left") {
+			res.Count("nospace.refusals_checked", 1)
+			cur := int64(0)
+			if n := drv.Model.Lookup(op.Path); n != nil && !n.Dir {
+				cur = int64(len(n.Data))
+			}
+			want := cur + int64(op.Len)
+			if op.Kind == "write" {
+				want = max(cur, op.Off+int64(op.Len))
+			}
+			extra := (want+int64(cs)-1)/int64(cs) - (cur+int64(cs)-1)/int64(cs)
+			if op.Kind == "create" || op.Kind == "mkdir" {
+				extra = 2 // its own first cluster and, at most, one more for the parent directory
+			}
+			if free := fatFreeClusters(st, v); free >= 0 && int64(free) >= extra+3 {
+				how := "a new file"
+				if cur > 0 {
+					how = "an existing file"
+				}
+				drv.Fail("reuse", "refused-for-space-while-clusters-are-free/growing-"+strings.ReplaceAll(how, " ", "-"), "%s was refused with %q although the FAT holds %d free clusters and growing %s from %d to %d bytes needs %d", op.String(), drv.History[len(drv.History)-1].Err, free, how, cur, want, extra)
+				return false
+			}
+		}
 		if prop == "C01" {
 			if len(drv.History) > 0 && drv.History[len(drv.History)-1].Err == "" {
 				if drv.Light {
@@ -772,6 +798,9 @@ func runFatCase(prop string, c core.Case, env *core.Env) core.Result {
 	case "rootfill":
 		drv.Light = true
 		fatRootFill(fr, fs, step, reopenCmp)
+	case "regrow":
+		drv.Light = true
+		fatRegrow(fr, fs, cs, step, reopenCmp)
 	case "exhaustive":
 		// handled by the caller (many short histories on fresh volumes); see c01Exhaustive
 	}
@@ -882,6 +911,119 @@ func fatRefill(fr *fatRun, fs filesystem.FileSystem, cs int, step func(fsdrive.O
 			return
 		}
 	}
+}
+
+// fatFreeClusters counts the free entries of the first FAT copy, read raw (-1 if the boot sector makes no sense).
+func fatFreeClusters(st *monstore.Store, v FatVol) int {
+	b := st.Peek(v.Start, 512)
+	le := func(o, n int) int64 {
+		x := int64(0)
+		for i := n - 1; i >= 0; i-- {
+			x = x<<8 | int64(b[o+i])
+		}
+		return x
+	}
+	bps, spc, reserved, nfats, rootEnts := le(11, 2), le(13, 1), le(14, 2), le(16, 1), le(17, 2)
+	total, fatsz := le(19, 2), le(22, 2)
+	if total == 0 {
+		total = le(32, 4)
+	}
+	if fatsz == 0 {
+		fatsz = le(36, 4)
+	}
+	if bps == 0 || spc == 0 || fatsz == 0 {
+		return -1
+	}
+	rootSectors := (rootEnts*32 + bps - 1) / bps
+	clusters := (total - reserved - nfats*fatsz - rootSectors) / spc
+	fat := st.Peek(v.Start+reserved*bps, int(fatsz*bps))
+	free := 0
+	for c := int64(2); c < clusters+2; c++ {
+		var e uint32
+		switch v.Type {
+		case "fat12":
+			o := c * 3 / 2
+			if int(o)+1 >= len(fat) {
+				return free
+			}
+			w := uint32(fat[o]) | uint32(fat[o+1])<<8
+			if c%2 == 1 {
+				e = w >> 4
+			} else {
+				e = w & 0xfff
+			}
+		case "fat16":
+			if int(c*2)+1 >= len(fat) {
+				return free
+			}
+			e = uint32(fat[c*2]) | uint32(fat[c*2+1])<<8
+		default:
+			if int(c*4)+3 >= len(fat) {
+				return free
+			}
+			e = (uint32(fat[c*4]) | uint32(fat[c*4+1])<<8 | uint32(fat[c*4+2])<<16 | uint32(fat[c*4+3])<<24) & 0x0fffffff
+		}
+		if e == 0 {
+			free++
+		}
+	}
+	return free
+}
+
+// fatRegrow: what was released in front of a file or directory must be usable to grow it.
+func fatRegrow(fr *fatRun, fs filesystem.FileSystem, cs int, step func(fsdrive.Op) bool, reopen func(string) bool) {
+	res := fr.res
+	drv := fr.drv
+	refused := func() bool { return drv.History[len(drv.History)-1].Err != "" }
+	steps := []fsdrive.Op{
+		{Kind: "write", Path: "front.bin", Len: 40*cs + 5, DSeed: 1},
+		{Kind: "mkdir", Path: "late"},
+		{Kind: "write", Path: "late/first.bin", Len: cs, DSeed: 2},
+		{Kind: "write", Path: "tail.bin", Len: 3 * cs, DSeed: 3},
+	}
+	for _, op := range steps {
+		if !step(op) || refused() {
+			return
+		}
+	}
+	full := false
+	for i := 0; i < 100000 && !full; i++ {
+		if !step(fsdrive.Op{Kind: "write", Path: fmt.Sprintf("fill%05d.bin", i), Len: []int{cs * 97, cs * 8, cs}[i%3], DSeed: uint64(100 + i)}) {
+			return
+		}
+		full = refused()
+	}
+	if !full {
+		res.Inconclusive = "regrow: volume never reported no space"
+		return
+	}
+	// everything behind tail.bin and the directory is in use now; free space only in front of them
+	if !step(fsdrive.Op{Kind: "remove", Path: "front.bin"}) {
+		return
+	}
+	for i := 0; i < 12; i++ {
+		if !step(fsdrive.Op{Kind: "append", Path: "tail.bin", Len: 3*cs + 1, DSeed: uint64(5000 + i)}) {
+			return
+		}
+		if refused() {
+			break
+		}
+		res.Count("regrow.appends_accepted", 1)
+	}
+	for i := 0; i < 40*cs/32/4 && i < 400; i++ {
+		if !step(fsdrive.Op{Kind: "create", Path: fmt.Sprintf("late/a_long_enough_name_to_need_slots_%04d.txt", i)}) {
+			return
+		}
+		if refused() {
+			break
+		}
+		res.Count("regrow.creates_accepted", 1)
+	}
+	res.Mark("file and directory grown into space released in front of them")
+	if !drv.Compare(fs, "live", nil) {
+		return
+	}
+	reopen("regrow")
 }
 
 // fatRootFill: root-directory exhaustion on FAT12/16 must clear after removals.
